@@ -51,4 +51,26 @@ CLAIMED.update({
     },
 })
 
+CLAIMED.update({
+    'C19': {
+        'text': 'Structural necessary conditions of exact screening: the caller\'s frame is only read through a copy and every in-place '
+                'mutation acts on a class-allocated object; the lists reported as noisy geos / outlier dates are the very values used in the '
+                'negated isin filters on the geo / date column; every rebinding of the screened data in fit() is followed by re-aggregation on '
+                'every path; the aggregation sums the target by (date, period) x group after relabelling exactly control and treatment; the '
+                'i-th label is paired with the i-th row of the same pivoted table.',
+        'design_ref': 'DESIGN.md section 4, C19',
+        'note': 'Not decided: which geos/dates the statistical detectors flag, and row-order independence inside pandas/statsmodels.' + TB,
+        'technique': 'ownership/effect analysis + def-use agreement + must-follow on the CFG',
+    },
+    'C20': {
+        'text': 'Structural necessary conditions of exact expansion: de-duplicating return; pd.date_range(first_day, last_day) at daily '
+                'frequency with both ends; whole-input iteration with an accumulate on every iteration; arity dispatch of the parser proved by '
+                'path conditions (1 part -> (d,d), 2 parts -> (a,b), otherwise ValueError); ValueError-only error discipline; TimeWindow\'s '
+                'ordering guard dominates construction. A different expansion algorithm (no set-based de-duplication) is reported UNDECIDED.',
+        'design_ref': 'DESIGN.md section 4, C20',
+        'note': 'Not decided: what pd.Timestamp parses (empty string -> NaT, times of day); correctness of a hand-written sweep/merge algorithm.' + TB,
+        'technique': 'structural dataflow rules + path-condition analysis of the parser',
+    },
+})
+
 NOT_APPLICABLE = {}
